@@ -5,13 +5,17 @@
 //!   nbsim replay FILE
 //!   nbsim list
 
+mod hist;
+mod histgen;
 mod obs;
 mod plan;
 mod prng;
 mod refnat;
+mod regs;
 mod scn_c09iter;
 mod scn_c17;
 mod scn_c18;
+mod scn_hist;
 mod seams;
 mod simalloc;
 mod sup;
@@ -40,6 +44,12 @@ pub static SCENARIOS: &[Scenario] = &[
         gen: scn_c09iter::gen,
         exec: scn_c09iter::exec,
     },
+    Scenario { name: "c04", property: "C04", gen: scn_hist::gen_c04, exec: scn_hist::exec_c04 },
+    Scenario { name: "c14h", property: "C14", gen: scn_hist::gen_c14h, exec: scn_hist::exec_c14h },
+    Scenario { name: "c14f", property: "C14", gen: scn_hist::gen_c14f, exec: scn_hist::exec_c14f },
+    Scenario { name: "c15", property: "C15", gen: scn_hist::gen_c15, exec: scn_hist::exec_c15 },
+    Scenario { name: "c15rand", property: "C15", gen: scn_hist::gen_c15rand, exec: scn_hist::exec_c15rand },
+    Scenario { name: "c16", property: "C16", gen: scn_hist::gen_c16, exec: scn_hist::exec_c16 },
     Scenario {
         name: "c17",
         property: "C17",
@@ -115,6 +125,13 @@ fn main() {
     }
     sup::install_panic_hook();
     sup::install_signal_handlers();
+    sup::limit_memory(
+        std::env::var("NBSIM_MEM_LIMIT_MB")
+            .ok()
+            .and_then(|s| s.parse::<u64>().ok())
+            .unwrap_or(3072)
+            << 20,
+    );
     let out = std::io::stdout();
     match args[1].as_str() {
         "list" => {
@@ -172,7 +189,7 @@ fn watchdog_secs() -> u32 {
     std::env::var("NBSIM_WATCHDOG_S")
         .ok()
         .and_then(|s| s.parse().ok())
-        .unwrap_or(60)
+        .unwrap_or(20)
 }
 
 #[allow(clippy::too_many_arguments)]
